@@ -1535,3 +1535,33 @@ func sameExprDepth(a, b ssa.Value, depth int) bool {
 	}
 	return false
 }
+
+// Greater normalises an ordering comparison to "big > small" (strict) or
+// "big >= small": X > Y, Y < X, X >= Y, Y <= X are one relation each.
+func Greater(b *ssa.BinOp) (big, small ssa.Value, strict, ok bool) {
+	switch b.Op {
+	case token.GTR:
+		return b.X, b.Y, true, true
+	case token.LSS:
+		return b.Y, b.X, true, true
+	case token.GEQ:
+		return b.X, b.Y, false, true
+	case token.LEQ:
+		return b.Y, b.X, false, true
+	}
+	return nil, nil, false, false
+}
+
+// CondGreater is Greater for a condition with its truth value: !(X > Y) is
+// Y >= X, !(X >= Y) is Y > X.
+func CondGreater(c Cond) (big, small ssa.Value, strict, ok bool) {
+	b, isB := c.V.(*ssa.BinOp)
+	if !isB {
+		return nil, nil, false, false
+	}
+	big, small, strict, ok = Greater(b)
+	if ok && !c.True {
+		big, small, strict = small, big, !strict
+	}
+	return
+}
